@@ -54,15 +54,14 @@ def enc(r):
     return [4, repr(r), '0']
 
 
-def build_env(spec):
+def env_args(spec):
     kw = {}
     if spec.get('offset', 'absent') != 'absent':
         kw['offset'] = num(spec['offset'])
-    return Env(nums(spec['levels']), nums(spec['times']), curves(spec['curves']),
-               spec['rel'], spec['loop'], **kw)
+    return [nums(spec['levels']), nums(spec['times']), curves(spec['curves']), spec['rel'], spec['loop']], kw
 
 
-def build_ctor(name, args):
+def ctor_args(args):
     a = {}
     for k, v in args.items():
         if k in ('curve', 'curves'):
@@ -75,7 +74,39 @@ def build_ctor(name, args):
             a[k] = [[num(p[0]), num(p[1])] for p in v]
         else:
             a[k] = nums(v)
-    return getattr(Env, name)(**a)
+    return [], a
+
+
+def call_spec(c):
+    """(callable, positional args, keyword args) of a case"""
+    if 'name' in c:
+        pos, kw = ctor_args(c['args'])
+        return getattr(Env, c['name']), pos, kw
+    pos, kw = env_args(c['env'])
+    return Env, pos, kw
+
+
+def typed(x):
+    """exact, type-tagged rendering of a Python value (distinguishes 0, 0.0, -0.0, False)"""
+    if isinstance(x, (list, tuple)):
+        return [typed(i) for i in x]
+    return [type(x).__name__, repr(x)]
+
+
+def encattr(x):
+    if x is None:
+        return None
+    if isinstance(x, str):
+        return ['N', x]
+    if isinstance(x, (list, tuple)):
+        return [encattr(i) for i in x]
+    if isinstance(x, bool):
+        return ['B', str(x)]
+    if isinstance(x, int):
+        return ['I', str(x)]
+    if isinstance(x, float) and x == x and x not in (float('inf'), float('-inf')):
+        return ['F', str(Fraction(x))]
+    return ['X', repr(x)]
 
 
 def one_channel(fmt):
@@ -93,23 +124,127 @@ def guarded(f):
         return {'err': 'Other:' + type(e).__name__}
 
 
+def ugen_sites(e):
+    """what EnvGen / IEnvGen / a node argument receive from the SAME Env object"""
+    from sc3.synth.ugens.envgen import EnvGen, IEnvGen
+    from sc3.synth.synthdef import SynthDef
+    cap = {}
+
+    def graph():
+        u = EnvGen.kr(e)
+        cap['ugen_in'] = [enc(x) for x in u.inputs[5:]]
+        v = IEnvGen.kr(e, 0)
+        cap['iugen_in'] = [enc(x) for x in v.inputs[1:]]
+        u2 = EnvGen.ar(e)                       # the same Env in a second EnvGen
+        cap['ugen_in2'] = [enc(x) for x in u2.inputs[5:]]
+    SynthDef('c19', graph)
+    ctl = e._as_control_input()
+    cap['ctl'] = [enc(x) for x in (ctl if isinstance(ctl, (list, tuple)) else [ctl])]
+    return cap
+
+
+def snapshot(e, ts):
+    return {'attrs': {'levels': encattr(e.levels), 'times': encattr(e.times), 'curves': encattr(e.curves),
+                      'rel': e.release_node, 'loop': e.loop_node, 'offset': encattr(e.offset)},
+            'env': guarded(lambda: one_channel(e._envgen_format())),
+            'ienv': guarded(lambda: one_channel(e._interpolation_format())),
+            'at': [guarded(lambda: enc(e._at(float(Fraction(t))))) for t in ts]}
+
+
+def fresh_snapshot(e, ts):
+    """a NEW Env built from e's current attributes: what e must encode / evaluate to"""
+    f = guarded(lambda: Env(e.levels, e.times, e.curves, e.release_node, e.loop_node, e.offset))
+    if isinstance(f, dict):
+        return {'ctor': f}
+    s = snapshot(f, ts)
+    del s['attrs']
+    return s
+
+
+def run_hist(c):
+    """one Env object through a history of reads and modifications; after every step its current
+    attributes and what it encodes / evaluates to"""
+    import copy
+    f, pos, kw = call_spec(c)
+    e = guarded(lambda: f(*pos, **kw))
+    if isinstance(e, dict):
+        return {'ctor': e}
+    steps = [snapshot(e, c['ts'])]
+    original = None
+    for op in c['ops']:
+        try:
+            if op[0] == 'set':
+                val = op[2] if op[1] in ('release_node', 'loop_node') else \
+                    (curves(op[2]) if op[1] == 'curves' else nums(op[2]))
+                setattr(e, op[1], val)
+            elif op[0] == 'duration':
+                e.duration = num(op[1])
+            elif op[0] in ('range', 'exprange', 'curverange'):
+                before = snapshot(e, c['ts'])
+                r = getattr(e, op[0])(*[num(x) for x in op[1:]])
+                after = snapshot(e, c['ts'])
+                steps.append({'unchanged_original': before == after})
+                e = r
+            elif op[0] == 'copy':
+                e = copy.copy(e) if op[1] == 'copy' else copy.deepcopy(e)
+            elif op[0] == 'read':
+                pass
+            st = snapshot(e, c['ts'])
+            st['fresh'] = fresh_snapshot(e, c['ts'])
+            st['op'] = op
+            steps.append(st)
+        except Exception as ex:
+            steps.append({'err': type(ex).__name__})
+            break
+    return {'steps': steps}
+
+
 def run(c):
-    def mk():
-        return build_ctor(c['name'], c['args']) if 'name' in c else build_env(c['env'])
-    if c['k'] in ('fmt', 'ctor'):
-        e = guarded(mk)
+    import copy
+    if c['k'] == 'hist':
+        return run_hist(c)
+    if c['k'] == 'raw':
+        f = getattr(Env, c['name']) if c.get('name') else Env
+        e = guarded(lambda: f(*c.get('pos', []), **c.get('kw', {})))
         if isinstance(e, dict):
-            return {'env': e, 'ctor': e}
-        return {'env': guarded(lambda: one_channel(e._envgen_format())),
-                'ienv': guarded(lambda: one_channel(e._interpolation_format())),
-                'repeat': guarded(lambda: one_channel(e._envgen_format())),   # memoised second call
-                'offset': guarded(lambda: enc(e.offset))}
+            return {'env': e, 'ienv': e}
+        def chan(fmt):
+            if not (isinstance(fmt, list) and len(fmt) == 1):
+                raise AssertionError('multichannel')
+            return typed(fmt[0])
+        return {'env': guarded(lambda: chan(e._envgen_format())), 'ienv': guarded(lambda: chan(e._interpolation_format()))}
+    f, pos, kw = call_spec(c)
+    keep = copy.deepcopy((pos, kw))
+    if c['k'] in ('fmt', 'ctor'):
+        e = guarded(lambda: f(*pos, **kw))
+        unchanged = typed_args(keep) == typed_args((pos, kw))
+        if isinstance(e, dict):
+            return {'env': e, 'ctor': e, 'args_unchanged': unchanged}
+        out = {'env': guarded(lambda: one_channel(e._envgen_format())),
+               'ienv': guarded(lambda: one_channel(e._interpolation_format())),
+               'repeat': guarded(lambda: one_channel(e._envgen_format())),   # memoised second call
+               'offset': guarded(lambda: enc(e.offset)),
+               'args_unchanged': unchanged}
+        # the same argument objects used a second time
+        e2 = guarded(lambda: f(*pos, **kw))
+        out['again'] = e2 if isinstance(e2, dict) else guarded(lambda: one_channel(e2._envgen_format()))
+        if c.get('sites') and not isinstance(out['env'], dict):
+            out['sites'] = guarded(lambda: ugen_sites(e))
+        return out
     if c['k'] == 'at':
-        e = guarded(mk)
+        e = guarded(lambda: f(*pos, **kw))
         if isinstance(e, dict):
             return {'at': [e for _ in c['ts']]}
         return {'at': [guarded(lambda: enc(e._at(float(Fraction(t))))) for t in c['ts']]}
     return {'err': 'bad case'}
+
+
+def typed_args(a):
+    if isinstance(a, dict):
+        return {k: typed_args(v) for k, v in a.items()}
+    if isinstance(a, (list, tuple)):
+        return [typed_args(i) for i in a]
+    return [type(a).__name__, repr(a)]
 
 
 def main():
